@@ -385,9 +385,9 @@ func unmarshalCollection(s string) (orb.Collection, error) {
 		return nil, ErrNotWKT
 	}
 
-	geometries := splitGeometryCollection(s[18:])
-	if len(geometries) == 0 {
-		return orb.Collection{}, nil
+	geometries, err := splitGeometryCollection(s[18:])
+	if err != nil {
+		return nil, err
 	}
 
 	c := make(orb.Collection, 0, len(geometries))
@@ -407,30 +407,32 @@ func unmarshalCollection(s string) (orb.Collection, error) {
 	return c, nil
 }
 
-// splitGeometryCollection split GEOMETRYCOLLECTION to more geometry
-func splitGeometryCollection(s string) (r []string) {
-	r = make([]string, 0)
-	stack := make([]rune, 0)
-	l := len(s)
-	for i, v := range s {
-		if !strings.Contains(string(stack), "(") {
-			stack = append(stack, v)
-			continue
-		}
-		if ('A' <= v && v < 'Z') || ('a' <= v && v < 'z') {
-			t := string(stack)
-			r = append(r, t[:len(t)-1])
-			stack = make([]rune, 0)
-			stack = append(stack, v)
-			continue
-		}
-		if i == l-1 {
-			r = append(r, string(stack))
-			continue
-		}
-		stack = append(stack, v)
+// splitGeometryCollection splits the body of a GEOMETRYCOLLECTION, "(member,member,...)",
+// into its members: it strips the outer parentheses and cuts at the commas that are not
+// inside a member's own parentheses. Members are returned untrimmed, Unmarshal trims them.
+func splitGeometryCollection(s string) ([]string, error) {
+	s, err := trimSpaceBrackets(s)
+	if err != nil {
+		return nil, err
 	}
-	return
+
+	r := make([]string, 0, 4)
+	depth, start := 0, 0
+	for i := 0; i < len(s); i++ {
+		switch s[i] {
+		case '(':
+			depth++
+		case ')':
+			depth--
+		case ',':
+			if depth == 0 {
+				r = append(r, s[start:i])
+				start = i + 1
+			}
+		}
+	}
+
+	return append(r, s[start:]), nil
 }
 
 // Unmarshal return a geometry by parsing the WKT string.
